@@ -698,6 +698,13 @@ async fn exec(cx: &mut ClientCx, op: &Op) -> Res {
             },
             None => Res::Skipped,
         },
+        Op::JoinRotate => match cx.joins.pop_front() {
+            Some(f) => {
+                cx.joins.push_back(f);
+                Res::Ok
+            }
+            None => Res::Skipped,
+        },
         Op::JoinDiscard => match cx.joins.pop_front() {
             Some(f) => {
                 drop(f);
